@@ -66,6 +66,32 @@ def dense_case_st(draw):
     return (stuffing, abort, draw(_dense), draw(G.cuts_st()))
 
 
+# --- frames around and beyond the 2047-octet maximum ----------------------------------------------------------------------
+
+
+@st.composite
+def overlong_case_st(draw):
+    """flag + L flag-free octets (L around 2047 or far beyond) + flag + good frame(s): the over-long discard must not depend on chunking."""
+    import random
+
+    stuffing, abort = draw(G.config_st)
+    L = draw(st.sampled_from([2040, 2046, 2047, 2048, 2049, 2060, 2100, 3000, 4100]) | st.integers(2030, 4200))
+    rnd = random.Random(draw(st.integers(0, 2**31)))
+    mode = draw(st.sampled_from(["random", "dense", "header-2047", "ones"]))
+    if mode == "random":
+        junk = bytes(o for o in rnd.randbytes(L + 64) if o != FLAG)[:L]
+    elif mode == "dense":
+        junk = bytes(rnd.choice([ESC, 0x5E, 0x5D, 0xA0, 0x03, 0x01]) for _ in range(L))
+    elif mode == "header-2047":
+        junk = (b"\xa7\xff\x01\x01\x10\x38\x83" + bytes(o for o in rnd.randbytes(L + 64) if o != FLAG))[:L]
+    else:
+        junk = b"\x01" * L  # (all-even octets would make the address scan quadratic - irrelevant here and slow)
+    tail = b"".join(bytes([FLAG]) + G.wire(f, stuffing) for f in (_SHORT, _SHORT2, _HDRONLY)[: draw(st.integers(1, 3))]) + bytes([FLAG])
+    stream = draw(st.sampled_from([b"", b"\x01\x02"])) + bytes([FLAG]) + junk + tail
+    cuts = draw(st.one_of(G.cuts_st(), st.tuples(st.just("fixed"), st.sampled_from([64, 500, 512, 1000, 1024, 2047, 2048, 2049, 3000, 4096]), st.integers(0, 4095)), st.tuples(st.just("single"), st.integers(2030, 2200))))
+    return (stuffing, abort, stream, cuts)
+
+
 # --- structured exhaustive token sequences ----------------------------------------------------------------
 
 _SHORT = G.build_frame(0xA, 0, b"\x03", b"\x21", 0x13, b"\x7d\x5e\x7e\x01")  # 7D, 5E, 7E inside the information field
@@ -128,7 +154,8 @@ def build() -> Check:
         rule=(
             "streams: the C01 stream generator (good/defective/noise tokens) and flag/escape-dense noise, each compared single-call vs "
             "bytewise vs a drawn splitting, per configuration; non-trivial = the stream yields >=1 frame or leaves the reader mid-frame "
-            "AND the compared splitting has a cut adjacent to a 7E/7D. tokens: ALL sequences of <=5 (quick) / <=6 (thorough) tokens over "
+            "AND the compared splitting has a cut adjacent to a 7E/7D. overlong: flag + 2030..4200 flag-free octets (random, 7D-dense, a header announcing "
+            "2047 octets, 01 filler) + 1..3 good frames, with chunk sizes around 2047/2048 and cuts near the limit. tokens: ALL sequences of <=5 (quick) / <=6 (thorough) tokens over "
             "{flag, escape, valid frame with 7D/5E/7E in its information field, header-only frame, frame truncated after the HCS, frame "
             "cut mid-header, odd octet, even octet, 5E, stuffed valid frame} x 4 configurations x {bytewise, every single cut, token "
             "boundaries, empty chunks}; non-trivial = some configuration yields a frame or ends mid-frame. Distinct = case hash."
@@ -138,6 +165,7 @@ def build() -> Check:
         clauses=[
             HypClause("streams", c01.case_st, oracle_stream, quick=12000, thorough=250000),
             HypClause("dense", dense_case_st, oracle_stream, quick=12000, thorough=250000),
+            HypClause("overlong", overlong_case_st, oracle_stream, quick=1500, thorough=30000, doc="frames around / beyond the 2047-octet maximum followed by good frames"),
             EnumClause("tokens", size=lambda tier: _seq_count(5 if tier == "quick" else 6), case_at=seq_at, oracle=oracle_tokens, doc="exhaustive token sequences x all single cuts"),
         ],
     )
